@@ -65,6 +65,13 @@ CHECKS.update({
             "Trusted: TLC, CPython's sys.settrace line events as preemption points (finer preemption inside one line is not explored), RLock._is_owned for the lock observation. Single preemption only, two threads.",
             "DESIGN.md 4 C20"),
 })
+CHECKS.update({
+    "C11": ("exploration",
+            "exhaustive walk over the loaded timezone table (exported from the tree) through the public API; first-match semantics of pop_tz_offset_from_string specified in TLA+ (Timezone.tla, PopTz) and decided by TLC (T_C11.tla) on the exported match relation and on every real call",
+            "Every supported UTC offset x 8 spellings x both signs, every abbreviation in upper and lower case, three date-time bodies and five positions (end of string, attached to the last digit, in parentheses, before a parenthesised abbreviation in the JavaScript shape, before the year in the date(1) shape), English selected and autodetected: about 7.8k calls in quick. TLC checks for every spelling that the first matching row of the ordered table carries the entry's own offset (no shadowing) and for every call: aware result, exact offset, wall clock as written, pickle/copy/deepcopy round trip; strings without a zone must stay naive.",
+            "Trusted: TLC, the regex engine as exporter of the match relation, the loaded table as its own oracle for offsets (C16 ties it to the sources). LMT (listed with four offsets) is outside the domain.",
+            "DESIGN.md 4 C11"),
+})
 NOT_YET = {}
 
 def main():
